@@ -188,6 +188,13 @@ fn blend_block(rng: &mut Rng) -> (String, ir::BlendAttachmentState) {
     (format!("{{ {} }}", props.join(" ")), st)
 }
 
+/// does property set `k` contain a property the front end refuses on a compute pipeline (formats, cull mode,
+/// winding order; blend state blocks are accepted and ignored there)
+pub fn graphics_props_strict(k: u32) -> bool {
+    let t = graphics_props(k).0;
+    ["RenderTargetFormat", "DepthTargetFormat", "CullMode", "WindingOrder"].iter().any(|p| t.contains(p))
+}
+
 /// (property lines of a graphics `Pipeline` block, expected state); `k` = 0: no property, all defaults
 pub fn graphics_props(k: u32) -> (String, ir::GraphicsPipelineState) {
     let mut want = ir::GraphicsPipelineState {
